@@ -65,6 +65,23 @@ class Poly:
                 out.add(a)
         return out
 
+    def subst(self, mapping: dict):
+        """Replace atoms (by name) with polynomials."""
+        if not any(a in mapping for a in self.atoms()):
+            return self
+        out = Poly({}, self.deps, self.gdeps)
+        for m, c in self.terms.items():
+            term = Poly.const(c)
+            for a, k in m:
+                base = mapping.get(a)
+                if base is None:
+                    term = term * Poly({((a, k),): Fraction(1)})
+                else:
+                    term = term * base.pow(k)
+            out = out + term
+        out.deps, out.gdeps = self.deps, self.gdeps
+        return out
+
     # arithmetic
     def _meta(self, o):
         return self.deps | o.deps, self.gdeps | o.gdeps
